@@ -319,6 +319,11 @@ def _rest_after_r2(ctx, core, cg, G_holder=None):
     fresh_child_scopes(ctx, "C03.R3", core, cg)
     from rules import c04 as c04_
     c04_.parameters_last(ctx, "C03.R3", core)
+    # inside a call the function's own name denotes the function: every caller hands the function value itself as `this`
+    ctx.rule("C03.R6", "the names visible inside a call are what the statement says: the function's own name is bound to the function value the caller resolved (never to an operand), and the names a do-block binds are bound for the capture analysis only after their right-hand side was scanned (so `x = x + 1` inside a function still reads - and captures - the outer x)", floor=10)
+    from rules import c13 as c13_
+    c13_.this_pairing(ctx, "C03.R6", core)
+    c04_.free_variable_rule(ctx, "C03.R6", core, only=lambda k_: k_.startswith("binder["))
 
 
 def fresh_child_scopes(ctx, rid, core, cg, doc=None):
